@@ -121,13 +121,15 @@ def chunks(tier, props, seed=0):
     first, inserts = [], []
     lens = (1, 2, 3, 4) if tier == "quick" else (1, 2, 3, 4, 5, 6)
     progs = ["fn.c", "ty.h", "zoo.c"] if tier == "quick" else list(BASE_SRC)
-    for name in progs:
+    # the cheap deterministic chunks also run on the remaining base programs in the quick tier
+    cheap = progs + [n for n in BASE_SRC if n not in progs]
+    for name in cheap:
         # files that END in an open state: cut after each of the first lines (inside / right after the 42 header, after
         # the first statements), inside a header comment line, and the empty file
         first.append(dict(prog=name, b=0, op="headcut"))
-    for name in progs:
+    for name in cheap:
         nb = len(boundaries(name))
-        step = (4 if name == "zoo.c" else 2) if tier == "quick" else 1
+        step = ((4 if name == "zoo.c" else 2) if name in progs else 6) if tier == "quick" else 1
         for b in range(0, nb - 1, step):
             first.append(dict(prog=name, b=b, op="structural"))
         text = base_text(name)
